@@ -16,6 +16,8 @@ pub enum Case {
     SameListSequence { nuni: usize },
     /// a menu of large numbers (size names) read back through a menu of requested lists
     Large { size: usize },
+    /// a first-order number with 70 000 names (stored positions beyond 65 535) read back through short requests
+    Huge,
     /// numbers with an infinite or overflowing second derivative (as x^1.5 has at 0) or gradient entry: every other
     /// entry must still be read back exactly, through every requested list
     NonFinite { which: u8 },
@@ -77,6 +79,7 @@ fn cases(tier: Tier) -> Vec<Case> {
     for which in 0..4u8 {
         out.push(Case::NonFinite { which });
     }
+    out.push(Case::Huge);
     let pn = 3;
     let fs = operands(pn, 1.5, 0, true);
     let gs = operands(pn, -2.5, 1, true);
@@ -145,6 +148,7 @@ pub fn check(case: &Case, idx: u64, acc: &mut Acc) {
                     }
                 }
             }
+            let mut last_manifold: Option<ndarray::Array1<Dual2>> = None;
             for list in ordered_sublists(nuni + 1) {
                 let req: Vec<String> = list.iter().map(|i| sym(*nuni, *i, &u)).collect();
                 let m = list.len();
@@ -227,7 +231,11 @@ pub fn check(case: &Case, idx: u64, acc: &mut Acc) {
                         );
                     }
                 }
+                // the result stays alive while the next list is asked for (every ordered sub-list follows, so every
+                // permutation of these names is requested with an earlier result still held)
+                last_manifold = Some(man);
             }
+            drop(last_manifold);
             if idx % 37 == 0 {
                 acc.sample(cj);
             }
@@ -351,6 +359,33 @@ pub fn check(case: &Case, idx: u64, acc: &mut Acc) {
                 }
                 if badm {
                     acc.violate("large/manifold", idx, cj(), json!({"request": rn}), json!("manifold entries by name differ"));
+                }
+            }
+            acc.sample(cj);
+        }
+        Case::Huge => {
+            let size = 70_000usize;
+            let name = |i: usize| format!("v{}", i);
+            let gv = |n: usize| 0.5 + (n % 1013) as f64 * 0.0009765625 + (n / 1013) as f64;
+            let d = rateslib::dual::Dual::try_new(0.75, (0..size).map(name).collect(), (0..size).map(gv).collect()).unwrap();
+            acc.nontrivial();
+            let reqs: Vec<Vec<usize>> = vec![
+                vec![size - 1],
+                vec![65_535],
+                vec![65_536, 3],
+                vec![65_537, 65_536, 65_535, 65_534],
+                vec![0, size + 5, size - 1],
+                (0..size).rev().step_by(4_999).collect(),
+                (60_000..size).collect(),
+            ];
+            for req in reqs {
+                acc.eval();
+                let rn: Vec<String> = req.iter().map(|i| name(*i)).collect();
+                let want: Vec<f64> = req.iter().map(|i| if *i < size { gv(*i) } else { 0.0 }).collect();
+                let got = d.gradient1(rn.clone()).to_vec();
+                if got != want {
+                    let k = (0..want.len()).find(|k| got.get(*k) != Some(&want[*k])).unwrap_or(0);
+                    acc.violate("huge/gradient1", idx, cj(), json!({"names": size, "requested": rn.len(), "first_wrong_name": rn.get(k), "want": want.get(k)}), json!(got.get(k)));
                 }
             }
             acc.sample(cj);
@@ -552,7 +587,7 @@ pub fn run(ctx: &Ctx, replay_file: Option<String>) -> ! {
          Hessians and every requested list. Larger numbers on a menu (3..33 names) through a request menu that is the product of selection (all stored names, one omitted at the \
          front / second / middle / end, every other, contiguous blocks, a block with one name replaced by a name stored elsewhere, scattered names) x order \
          (stored, reversed, two interior names swapped, interior reversed, rotated, ends swapped) x padding with absent names (none, interleaved, \
-         4*size+2 absent names in front / behind / spread through). Every number is also built through clone_from with a reversed-memory gradient and a column-major Hessian and must answer every request as its standard form does. Numbers with an infinite / overflowing Hessian entry or an infinite gradient entry: every requested list still reads every other entry back exactly. History independence: every requested list put, in a row on one thread, to \
+         4*size+2 absent names in front / behind / spread through). Every number is also built through clone_from with a reversed-memory gradient and a column-major Hessian and must answer every request as its standard form does. A first-order number with 70 000 names read back through seven short requests around position 65 535. Numbers with an infinite / overflowing Hessian entry or an infinite gradient entry: every requested list still reads every other entry back exactly. History independence: every requested list put, in a row on one thread, to \
          every layout of a 3-name pool, each number built fresh and dropped before the next. Non-trivial: requests that differ from the stored list.",
         json!({"names": 4, "requested_lists": ordered_sublists(5).len(), "cases": cs.len()}),
     )
